@@ -2,7 +2,7 @@
 # benigncheck.sh <Bnn>...  — run the property's quick check against each behaviour-preserving patch in /tmp/seed/<Bnn>-out (patch1..3.diff),
 # each applied to a scratch worktree of /repo HEAD; prints rc per patch (0 = quiet, 1 = FALSE ALARM, 2 = undecided)
 for ID in "$@"; do
-  SRC=/tmp/seed/$ID-out
+  SRC=/tmp/seed/$ID-out; [ -d $SRC ] || SRC=/verif/benign/$ID
   PROP=$(python3 -c "import json;print(json.load(open('$SRC/meta.json'))['property'])" 2>/dev/null) || { echo "$ID: no meta.json"; continue; }
   for k in 1 2 3; do
     [ -f $SRC/patch$k.diff ] || { echo "$ID patch$k: missing"; continue; }
